@@ -104,7 +104,16 @@ fn decode(src: &mut Source) -> Case {
 type Boxed = Box<dyn Recorder + Sync>;
 
 fn mk_filter(patterns: &[String], ci: bool, dfa: bool) -> FilterLayer {
-    let mut f = FilterLayer::from_patterns(patterns.iter());
+    // two ways to the same layer: from_patterns, or an empty layer fed through add_pattern
+    let mut f = if ci != dfa {
+        let mut f = FilterLayer::default();
+        for p in patterns {
+            f.add_pattern(p);
+        }
+        f
+    } else {
+        FilterLayer::from_patterns(patterns.iter())
+    };
     f.case_insensitive(ci).use_dfa(dfa);
     f
 }
